@@ -51,13 +51,16 @@ PROPS["C06"] = {
                    "pairs (loop-free bodies reduced as decision lists); (3) every size's data/ecc/block numbers equal the standard; "
                    "(4) encode_error's wiring: generator of the size's k, block loop over all B blocks, block input = strided view "
                    "of `data` with offset block and stride B, output interleaved with skip(block).step_by(B), scratch of k+1 cells "
-                   "zeroed per block, result length k*B; (5) ecc_block has no size-dependent branch. NOT decided: the LFSR recurrence "
-                   "inside ecc_block itself (pinned for k=5 by the existing tests ecc_block_1/test_error_code; UNIFORM shows it is the "
-                   "same code for every k).",
+                   "zeroed per block, result length k*B - decided by folding encode_error for all 48 sizes with opaque data codewords and an "
+                   "opaque block encoder; (5) ecc_block has no size-dependent branch; (6) LFSR - ecc_block folded over GF(256)-linear forms "
+                   "of opaque data codewords: the register ends as the remainder of d(x) x^k modulo prod(x-2^i), highest power first, "
+                   "coefficient by coefficient, for every (block length, k) of a symbol size (quick: every k with its shortest block and "
+                   "all small blocks; thorough: all 42 combinations); a product of two data-dependent values is refused. Together: the "
+                   "check codewords of every block of every size are the standard's, for all data.",
     "trusted_base": ["rustc const evaluation of the tables", "rules/gf.py reference field arithmetic", "reference/symbols.json",
-                     "existing tests ecc_block_1 and test_error_code pin the LFSR for k=5"],
+                     "rules/thirlib.py Folder (the abstract interpreter that carries the linear forms through ecc_block)"],
     "assumptions": ["default cargo features"],
-    "technique": "constant-table proof obligations + structural wiring rules over THIR",
+    "technique": "constant-table proof obligations + partial evaluation of encode_error / ecc_block (THIR) on opaque codewords and GF(256)-linear forms",
 }
 
 PROPS["C15"] = {
@@ -125,11 +128,14 @@ PROPS["C09"] = {
                    "Ok; PEE-POINTS: the evaluation points are alpha^1..alpha^k (all coefficients as running terms, scaled by 1, alpha, "
                    "alpha^2, .. before each sum). With TAB-GF/GF-OPS (the field the code computes in is GF(256)/0x12D) this gives: Ok => "
                    "every interleaved block vanishes at 2^1..2^k => it is a codeword of the standard's code. (That the encoder's "
-                   "generator table has the same roots is C06's TAB-GEN, not needed here.)",
-    "trusted_base": ["GF::primitive_powers() yields 1, alpha, alpha^2, .. (pinned by test_gf256_power_iterator)",
-                     "rustc THIR", "rules/p_rs.py typestate walk", "std iterator semantics (step_by, chain, nth)"],
+                   "generator table has the same roots is C06's TAB-GEN, not needed here.) SYNDROMES decides the evaluation independently of "
+                   "the statement shapes: primitive_element_evaluation folded over GF(256)-linear forms of opaque codewords yields exactly "
+                   "c(alpha^(i+1)) in cell i for every (word length, k) of a symbol size (the crate's own primitive_powers() is folded, not "
+                   "trusted); PROV-RSDEC folds decode() for all 48 sizes with opaque codewords: block b's word is data[b], data[b+B], .. "
+                   "followed by error[b], error[b+B], .. and has k syndrome cells.",
+    "trusted_base": ["rustc THIR", "rules/p_rs.py typestate walk", "rules/thirlib.py Folder (models of std iterator adaptors: step_by, chain, nth, zip, cycle, rev)"],
     "assumptions": ["default cargo features"],
-    "technique": "typestate (must-be-verified-at-exit) over THIR statement structure + constant-table proof obligations",
+    "technique": "typestate (must-be-verified-at-exit) over THIR statement structure + constant-table proof obligations + partial evaluation of the syndrome evaluation (THIR) over GF(256)-linear forms",
 }
 
 PROPS["C03"] = {
@@ -141,9 +147,9 @@ PROPS["C03"] = {
                    "cannot see): decode() hands block b the views data[b..], error[b..] with stride = number of blocks and err_len = k "
                    "of that size, for every block; the corrected codeword is addressed through exactly the strided chain the syndromes "
                    "were computed from at position n-i-1, after rejecting i >= n; success is only reported for a verified codeword "
-                   "(SYNZERO); the Chien search is exhaustive (ROOT-COVER); block structure numbers equal the standard. (The generator table is the encoder's business: C06.)",
+                   "(SYNZERO); the syndromes are exactly c(alpha^1)..c(alpha^k) of the block's word (SYNDROMES, by folding over linear forms) and each block's word is the right strided selection for all 48 sizes (PROV-RSDEC, by folding decode() on opaque codewords); the Chien search is exhaustive (ROOT-COVER); block structure numbers equal the standard. (The generator table is the encoder's business: C06.)",
     "assumptions": ["default cargo features"],
-    "technique": "provenance and shape rules over THIR (strided-view equality), typestate",
+    "technique": "provenance and shape rules over THIR (strided-view equality), typestate, partial evaluation of decode() / syndrome evaluation on opaque codewords per symbol size",
 }
 
 PROPS["C18"] = {
@@ -190,10 +196,15 @@ PROPS["C04"] = {
                    "5.2.8 transcribed independently; the termination forms (EDIFACT hands <= 2 trailing codewords to ASCII, C40/Text/X12 "
                    "decode pairs while > 1 codeword remains and consume a final single 254) hold as integer predicates; decode_parts "
                    "dispatches all six modes without wildcard to the decoder and tables of that mode and every non-ASCII decoder hands "
-                   "control back to ASCII. NOT decided: that the state machines compose correctly for every legal script (Base256 length "
-                   "arithmetic, pad checking and the EDIFACT bit unpacking loop are loops over run-time positions).",
+                   "control back to ASCII; DEC-B256 - decode_base256 folded as a whole with the crate's own Reader on ~2000 streams built from "
+                   "the standard's 255-state algorithm (every run length 1..260 and long runs with the prescribed length field, field 0, all "
+                   "1536 two-codeword fields, exact / surplus / short streams): the plain bytes, the reader position, the next mode and "
+                   "UnexpectedEnd exactly for a stream that ends early; the EDIFACT value table is read off decode_edifact folded as a whole "
+                   "(every six-bit value at each of the four positions of a triple, unlatch at each position). NOT decided: that the state "
+                   "machines compose correctly for every legal script (pad checking and mode sequences are loops over run-time positions); "
+                   "the Base256 streams are a grid, not all streams.",
     "assumptions": ["default cargo features"],
-    "technique": "decision-table extraction from THIR (finite-domain folding of loop bodies) against transcribed ISO tables",
+    "technique": "decision-table extraction from THIR (finite-domain folding of loop bodies) against transcribed ISO tables; whole-function partial evaluation of the Base256 and EDIFACT decoders",
 }
 
 PROPS["C02"] = {
@@ -205,25 +216,37 @@ PROPS["C02"] = {
                    "the caller's list that is big enough, padding fills exactly to that symbol's data capacity and nothing is written "
                    "afterwards; add_padding emits unlatch iff not in ASCII, then 129, then 253-state randomised pads for their 1-based "
                    "positions (formula folded for 2400 positions); encode_error produces k*B error codewords for that size (PROV-RSENC). "
-                   "NOT decided: the 255-state randomisation and length field of Base256, the end-of-symbol rules of the mode encoders "
-                   "and the conformance of every position of every stream - behaviour over run-time positions.",
+                   "The Base256 field as written - length 0 / one / two codewords at the right thresholds and the 255-state randomisation for "
+                   "the 1-based position - for all 1555 run lengths (TAB-B256; when the helper shapes are not recognised, write_length is "
+                   "folded as a whole on a grid of runs); the end-of-data code of the X12, C40/Text and EDIFACT encoders against 5.2.7.2 / "
+                   "5.2.5.2 / 5.2.8.2 over an abstract context (END-*). NOT decided: the encoders' main loops and therefore the conformance "
+                   "of every position of every stream - behaviour over run-time positions.",
     "assumptions": ["default cargo features"],
     "technique": "decision-table extraction from THIR against transcribed ISO tables + provenance rules",
 }
 
 PROPS["C01"] = {
     "level": "other",
-    "rules": [p_macro.fld_input, p_codec.tab_codec, p_b256.tab_b256, p_wire.prov_pipe, p_codec.dec_mode, p_endrules.end_x12, p_endrules.end_c40, p_endrules.end_edifact, only(p_plan.prov_plan, lambda k: k == "encoder-plan", "the plan the encoder follows")],
+    "rules": [p_macro.fld_input, p_codec.tab_codec, p_b256.tab_b256, p_wire.prov_pipe, p_codec.dec_mode, p_endrules.end_x12, p_endrules.end_c40, p_endrules.end_edifact, only(p_plan.prov_plan, lambda k: k == "encoder-plan", "the plan the encoder follows"),
+              p_rs.prov_rsenc, p_rs.lfsr, p_rs.prov_rsdec, p_rs.syndromes, p_place.plc_rw, p_bitmap.render_geom, p_bitmap.parse_inv],
     "explanation": "Clause-level claim; the inverse law itself (equality of byte strings over all inputs and configurations) is not "
                    "decidable statically. Three structural necessary conditions are decided: FLD-INPUT - the encoder's read cursor "
                    "`.data` always stays a suffix of `.input` (every writer enumerated crate-wide), which backup() relies on; TAB-CODEC - "
                    "for every byte 0..=255 the value sequence the encoder tables emit (C40, Text, X12, EDIFACT, ASCII) is mapped back to "
                    "that byte by the decoder's tables (table composition), with the EDIFACT bit packing layout; PROV-PIPE - decode() and "
                    "encode_eci()/bitmap() pass the same size and the right codeword slices between placement, error correction and data "
-                   "(de)coding. NOT decided: end-of-data logic of the six mode encoders, planner/encoder agreement, placement and RS "
-                   "inverses (C03/C07 clauses cover parts). A mutation inside handle_end arithmetic is NOT detected.",
+                   "(de)coding; TAB-B256 / DEC-B256 - the Base256 field (length forms, 255-state randomisation) as written and as read, by "
+                   "folding write_length's header block and decode_base256 as a whole; END-X12 / END-C40 / END-EDIFACT - the loop-free "
+                   "end-of-data code of the packed-mode encoders folded over an abstract context and compared with 5.2.7.2 / 5.2.5.2 / 5.2.8.2. "
+                   "The symbol path of the round trip (module matrix, finder pattern, Reed-Solomon part) is decided per symbol size by folding "
+                   "the functions on opaque values: PROV-RSENC + LFSR (every block's check codewords are the remainder modulo the standard's "
+                   "generator, interleaved as specified), PROV-RSDEC + SYNDROMES (the decoder evaluates exactly those blocks at alpha^1..alpha^k, "
+                   "so an undamaged symbol has zero syndromes and is left alone), PLC-RW (writing then reading the mapping matrix is the identity "
+                   "and follows Annex F), RENDER-GEOM + PARSE-INV (parsing the rendered bitmap returns the content and the size). NOT decided: the "
+                   "main loops of the six mode encoders (which characters reach the end-of-data code), planner/encoder agreement on prices, and "
+                   "that the decoder's state machine inverts every legal mode sequence.",
     "assumptions": ["default cargo features"],
-    "technique": "table composition (decoder table o encoder table = identity) + field-writer typestate + provenance",
+    "technique": "table composition (decoder table o encoder table = identity) + field-writer typestate + provenance + partial evaluation of the typed syntax tree (THIR) on opaque values per symbol size",
 }
 
 PROPS["C11"] = {
@@ -268,10 +291,16 @@ PROPS["C08"] = {
                    "for a failed lookup of (width, len/width) in the full catalogue, five error variants; ALIGN-COVER - the finder tests "
                    "read the complete first and last row of every band of regions and the first and last module of every row piece "
                    "(a parser that looks at fewer modules accepts damaged finder patterns); the catalogue's region arithmetic "
-                   "(content size positive and divisible by the region counts) for all 48 sizes. NOT decided: that rendering and parsing "
-                   "are mutual inverses for all contents - a statement over all 2^(w*h) arrays with no further structural handle.",
-    "assumptions": ["default cargo features"],
-    "technique": "MIR dominance by edge removal + expression-shape rules over THIR",
+                   "(content size positive and divisible by the region counts) for all 48 sizes. The inverse clause itself: PARSE-INV - "
+                   "try_from_bits folded for every size on a W x H array of opaque pixels; tests of a pixel against LOW/HIGH are symbolic "
+                   "booleans, a branch on one is followed only when its other side is nothing but `return Err(..)`; the conditions collected "
+                   "on the accepting path must be exactly `pixel = the geometry's value` for every finder, clock, alignment and fixed-corner "
+                   "module (23948 over the 48 sizes), the returned content the remaining pixels in row-major order, the size and map fields "
+                   "that size's. So an array of catalogue dimensions is accepted iff all fixed modules are right, and then its content is read "
+                   "back exactly; with RENDER-GEOM (bitmap() = that geometry around the content: polynomial shape rules, or every pixel of a "
+                   "symbolic rendering for all 48 sizes) both directions of the inverse hold for all contents. Assumption: M = bool.",
+    "assumptions": ["default cargo features", "M = bool (the crate's only Bit implementation; LOW != HIGH)"],
+    "technique": "MIR dominance by edge removal + expression-shape rules over THIR + partial evaluation of try_from_bits / bitmap (THIR) on opaque pixels with symbolic branch conditions",
 }
 
 PROPS["C07"] = {
@@ -285,10 +314,15 @@ PROPS["C07"] = {
                    "pattern at (h-2,w-2),(h-1,w-1) for sizes with padding modules, MSB-first bit order of writer and reader, and that "
                    "traversal uses the matrix's own dimensions; the padding set {12,16,20,24} and the mapping-matrix dimensions of all 48 "
                    "sizes (TAB-SYM). Since every element equals the reference program, the placement it computes is the standard's. "
-                   "NOT decided by execution: bijectivity and read/write inversion per size (they follow from the equality with the "
-                   "reference algorithm, which is trusted).",
-    "assumptions": ["default cargo features", "the reference program of Annex F.3 as transcribed in rules/p_place.py"],
-    "technique": "source-level equivalence with the standard's reference program after canonicalisation (polynomial normal form)",
+                   "Independently of the source shape: exec:traversal - IndexTraversal::run folded with a recording visit function for the "
+                   "mapping matrix of all 48 sizes equals an Annex F.3 implementation written out independently (13302 codeword placements; "
+                   "the traversal never reads module values, so this holds for all contents) - run whenever the source comparison does not "
+                   "recognise something and always in the thorough tier; PLC-RW - new_with_codewords and codewords() folded (M = bool) with a "
+                   "codeword pattern and its complement: every bit lands MSB-first in Annex F's module, the modules no codeword covers are "
+                   "exactly the fixed 2x2 corner with its pattern, reading returns what was written (quick: 14 small sizes that exercise all "
+                   "corner cases, the fixed corner and the DMRE row wrap; thorough: all 48) - the bijection / inversion clause per size.",
+    "assumptions": ["default cargo features", "the reference program of Annex F.3 as transcribed twice, independently, in rules/p_place.py (REF_* tables and annex_f())"],
+    "technique": "source-level equivalence with the standard's reference program after canonicalisation (polynomial normal form) + partial evaluation of the traversal, writer and reader (THIR) per symbol size",
 }
 
 PROPS["C05"] = {
